@@ -268,6 +268,10 @@ def run(ctx) -> None:
     r1_identity(ctx)
     r2_counts(ctx)
     r3_protocol(ctx)
+    ctx.rule("C16.R4", "the output count a builder records for a container node is the count of its signature (shared with C01.R3): handles enumerate exactly those ports", floor=30)
+    from .c01 import r3_rows
+    with ctx.as_rule(C01_R3="C16.R4"):
+        r3_rows(ctx)
     from .. import lints
     lints.arm(ctx)
 
